@@ -675,9 +675,14 @@ class Arbiter(object):
             sockets = [x.fileno() for x in self.sockets.values()]
             rlist, wlist, xlist = select.select(sockets, [], [], 0)
             if rlist:
+                # only the on-demand watchers are started, and the check
+                # stays exclusive until they are
                 self.socket_event = True
-                self._start_watchers()
-                self.socket_event = False
+                try:
+                    yield self._start_watchers(watcher_iter_func=lambda: [
+                        w for w in self.iter_watchers() if w.on_demand])
+                finally:
+                    self.socket_event = False
 
     @synchronized("arbiter_reload")
     @gen.coroutine
